@@ -143,6 +143,16 @@ fn tempbuf(c: &Case, out: &mut String) {
                 });
                 pending = Some(Pending::Expect(rx));
             }
+            w if w.starts_with("WN:") => {
+                // `WN:<count>`: count bytes, written in 1 MiB pieces (staged sizes beyond 2^32 without a 2^33-character line)
+                let mut left: u64 = w[3..].parse().unwrap();
+                let chunk = vec![0xA5u8; 1 << 20];
+                while left > 0 {
+                    let k = left.min(chunk.len() as u64) as usize;
+                    writer.as_mut().unwrap().write_all(&chunk[..k]).unwrap();
+                    left -= k as u64;
+                }
+            }
             w if w.starts_with("W:") => {
                 let data = unhex(&w[2..]);
                 writer.as_mut().unwrap().write_all(&data).unwrap();
